@@ -188,13 +188,22 @@ def h_flow(t, part):
     ev = []
     rs = RandomStub(t)
 
+    slow = part.get('slow_disconnect_handler', False)
+
     def mk(kind, ns):
         if asyncio_:
             async def f(*a):
                 ev.append((kind, ns) + a)
+                if slow and kind == 'disconnect':
+                    # the handler is suspended for a long time: whatever else is runnable runs first
+                    await miniloop.checkpoint('slow disconnect handler')
         else:
             def f(*a):
                 ev.append((kind, ns) + a)
+                if slow and kind == 'disconnect':
+                    # (threaded: the background tasks that exist at this moment run to their end while the handler is
+                    # pre-empted)
+                    w.eio.run_bg()
         return f
     with notrace():
         w = worlds.CWorld(asyncio_, world=net, reconnection=recon, reconnection_attempts=2, reconnection_delay=1,
@@ -394,6 +403,7 @@ def flow_parts(tier):
             if not a:
                 out.append({'async': a, 'cause': 'transport-error', 'reconnection': True, 'shutdown_at': sh})
         out.append({'async': a, 'cause': 'transport-error', 'reconnection': True, 'early_loss': True})
+        out.append({'async': a, 'cause': 'transport-error', 'reconnection': True, 'slow_disconnect_handler': True})
     return out
 
 
